@@ -20,6 +20,17 @@ CLAIMED = {
          "op_assert / op_subx / op_capture between protocol stubs, including a sub-expression that overwrites its copy of the stack "
          "(c01_assert, c01_subx, c01_subx_mut, c01_capture: the caller's stack is intact below what is added).",
          "Operand predicates are stubs; infix desugaring in the grammar and the DWARF ?words are outside (DESIGN 7).", '6/C04'),
+ 'C07': ("Kernel only (clause: integral data with the signedness implied by the encoding of the DIE's type; uninterpreted encodings are reported): "
+         "handle_encoding / handle_encoding_data / handle_encoding_block / fix_dwarf_formsdata / atval_signed / atval_unsigned of atval.cc (compiled into "
+         "the harness TU), over libdw stubs that admit BOTH the zero-extending dwarf_formsdata of elfutils <= 0.170 and the sign-extending one of later "
+         "versions: for every DW_FORM_data1/2/4/8 datum and every DW_FORM_block1 of 1, 2, 4, 8 bytes with fully symbolic content, and every DW_ATE_* "
+         "encoding of dwarf.h plus lo_user, hi_user and undefined codes, a signed encoding yields the sign-extended value of the datum's width as a "
+         "signed decimal constant, an unsigned / address / UTF encoding the zero-extended value, boolean a constant of the bool domain, the float / "
+         "fixed / decimal encodings and blocks of other sizes no value (left to the caller), and any other encoding a std::runtime_error; exactly one "
+         "value is produced.",
+         "NOT covered: which type a DIE's attribute is decoded by (handle_at_dependent_value chases DW_AT_type through libdw), LEB128 forms, strings, "
+         "references, flags, addresses, enumerated attributes, location expressions (operand typing is the C17 kernel), big-endian files. libdw is a "
+         "stub written from its documentation (harness/c07.cc).", '0.3'),
  'C08': ("All of int.cc is checked for ALL operand pairs (64-bit payload x signedness on both sides, i.e. both representations of every non-negative "
          "value): +, -, unary -, six comparisons, * against an exact 128-bit oracle; / and % against the defining property of floor division "
          "(0 <= a - q*b < |b| with the divisor's sign) with error iff the exact result is outside [-2^63, 2^64-1].",
@@ -124,7 +135,6 @@ NA = {
  'C03': "bindings/uprefs use std::map<std::string,...> and the run-time part needs the operator harness with closures; symbolic execution of that heap did not come within reach (DESIGN 2.5, 7)",
  'C05': "needs the libdw contract model plus import chains of shared_ptr; not reached (DESIGN 7)",
  'C06': "needs the libdw contract model and attribute_producer's vector/scheduling heap; not reached (DESIGN 7)",
- 'C07': "at_value's form dispatch calls into libdw at every step; only leaf kernels would be encodable and were not reached (DESIGN 7)",
  'C10': "op_tr_closure keeps a std::set<shared_ptr<stack>> ordered by value comparison: control depends on symbolic data, and CBMC's symbolic execution of merged C++ heap states did not terminate (DESIGN 2.5)",
  'C15': "needs lexer/parser and execution of both sides; tree::simplify over vector<tree> not reached (DESIGN 7)",
  'C19': "main() of the CLI is a 400-line monolith behind getopt/iostream/file I/O; the observables are the effects of those externals (DESIGN 7)",
